@@ -303,6 +303,12 @@ fn insert_variants() -> Vec<(u8, Vec<u8>)> {
         (5, vec![0x41, 0x10, 0, 0, 0, 0, 0, 0, 0x3E, 0x41, 0x89, 0x37, 0x4B, 0xC6, 0xA7, 0xEF]),
         (6, b"ab".to_vec()),
         (6, b"abc\0".to_vec()),
+        // the remaining fixed sizes the specification assigns: six 16-bit words (TAPECODE), three and five
+        // coordinate pairs (AREF and BOX XY), a 44-byte string (TAPENUM-era names)
+        (2, [0u8, 9].iter().cycle().take(12).cloned().collect()),
+        (3, [0u8, 0, 0, 9].iter().cycle().take(24).cloned().collect()),
+        (3, [0u8, 0, 0, 4].iter().cycle().take(40).cloned().collect()),
+        (6, b"0123456789012345678901234567890123456789abcd".to_vec()),
     ]
 }
 const INSERT_TYPES: u64 = 0x40;
@@ -629,7 +635,7 @@ fn shared_nesting_case(src: &mut Src, ctx: &mut Ctx) -> Result<(), String> {
 
 fn run(run: &mut Run) {
     engine::journal::set_hang_ms(30_000);
-    run.rule("Base streams: 30 generated valid streams (all element kinds, <= ~2 KB), one stream with a 32 KB XY record, 3 repository files. (i) every truncation point of every base; (ii) every single-record fault (6 length faults, empty payload, 64 record types, 8 data types, delete/duplicate/swap, 8 splices) at every record of the generated bases and every n-th record of the repository files; (ii-b) a well-formed record of each of the 64 record types x 11 payload shapes inserted at every record boundary of the generated bases; (ii-c) floods: each of those records repeated 100 000 times at library, structure and element level of two bases, read on a 2 MB stack; (iii) proptest-driven byte mutations and noise; extreme/unnormalised reals in UNITS; allocation scaling. Non-trivial = faulted stream differs from its base; distinct by hash of the bytes.");
+    run.rule("Base streams: 30 generated valid streams (all element kinds, <= ~2 KB), one stream with a 32 KB XY record, 3 repository files. (i) every truncation point of every base; (ii) every single-record fault (6 length faults, empty payload, 64 record types, 8 data types, delete/duplicate/swap, 8 splices) at every record of the generated bases and every n-th record of the repository files; (ii-b) a well-formed record of each of the 64 record types x 15 payload shapes inserted at every record boundary of the generated bases; (ii-c) floods: each of those records repeated 100 000 times at library, structure and element level of two bases, read on a 2 MB stack; (iii) proptest-driven byte mutations and noise; extreme/unnormalised reals in UNITS; allocation scaling. Non-trivial = faulted stream differs from its base; distinct by hash of the bytes.");
     run.assume("termination is observed as: the call returns before the supervisor's hang watchdog / 60 s CPU limit; 'time proportional to input' is checked as (a) allocation volume at most doubling when the input doubles and (b) thread CPU time (best of five / three) growing at most 64-fold (+50 ms) when the input grows 16-fold, a suspicious measurement being repeated up to three times, on five stream shapes of about 1 to 4 MB");
     run.assume("which error is returned is not asserted");
     run.min_nontrivial = 1000;
